@@ -1,620 +1,34 @@
-import Pathrs.Proofs.Runs
-import Pathrs.Proofs.KPath
-import Pathrs.Proofs.SafeGen
-import Pathrs.Proofs.Props.C01
+import Pathrs.Proofs.C02Runs
+import Pathrs.Proofs.Attack
 
 /-!
 # C02 — lookups never escape the root under any concurrent attacker schedule
 
-The theorems are about `Runs`, the relational semantics of the model programs: a statement
-`Runs p h h' r → …` holds for *every* sequence of answers, i.e. for every interleaving of
-attacker mutations with the library's own system calls (each mutation can only show up as
-different answers to later calls).
+Two layers (`Proofs/C02Runs.lean`, `Proofs/Attack.lean`):
 
-* `C02_emulated_checked`: a successful emulated lookup ends with a passed `check_current` on the
-  very descriptor it returns (`WalkFinal`): the three `/proc/thread-self/fd` reads
-  root, fd, root with `Path::eq`-equal results (`CheckPassed`, `checkCurrent_inv`);
-* `asUnsafePath_inv`: the bytes compared are the kernel's answers to `readlinkat(link, "")` on the
-  descriptor libpathrs' own procfs lookup returned for `thread-self/fd/<n>` (verified on the
-  descriptor itself, C06);
-* `checked_below_root`: such a passed check means the path the kernel printed for `fd` consists
-  of the components of the root's path followed by the expected components, none of which is
-  `..`, `.` or empty — the object was below the root at the instant of the read — and the root's
-  own path was the same before and after;
-* `C02_kernel_confined`: the kernel backend returns only the answer of an
-  `openat2(root, …, RESOLVE_IN_ROOT|RESOLVE_NO_MAGICLINKS|…)`, makes at most 16 such calls, and
-  never reports `EAGAIN` (after the 16th it is `SafetyViolation`).
-
-What is *not* a theorem (kernel facts, trusted): that the `d_path` output of
-`/proc/thread-self/fd/<n>` is a snapshot of where the open file is (`DPathSound`), and that
-`RESOLVE_IN_ROOT` confines the kernel's walk.  The attacker-interposition suite of the check
-exercises exactly these on the live kernel.
+* for **every environment** (`Runs`: every sequence of kernel answers, hence every interleaving of attacker mutations
+  with the library's system calls): a successful emulated lookup ends with a passed `check_current` on the very
+  descriptor it returns; the kernel backend returns only the kernel's own confined answer, with bounded retries;
+* against an **attacker that rearranges the tree between any two system calls** (`Attack.runSeq`: the `i`-th call is
+  answered by the world of moment `i`, and the trees of different moments are unrelated): a descriptor the emulated
+  lookup returns refers to an object that the kernel's `d_path` placed below the root at some moment during the call.
+  The kernel statement this rests on is `World.answer`'s reading of `readlink(/proc/thread-self/fd/N)` (`DPathSound`).
 -/
 
 open K Runs KPath Path
 
-/-- what a passing `check_current` has read, whatever the environment did -/
-def CheckPassed (env : Env) (cur root : Fd) (exp : List Bytes) (h0 h1 : Hist) : Prop :=
-  ∃ rootPath curPath rootPath2 hA hB,
-    Runs (Procfs.asUnsafePath env root) h0 hA (.ok rootPath) ∧
-    Runs (Procfs.asUnsafePath env cur) hA hB (.ok curPath) ∧
-    Runs (Procfs.asUnsafePath env root) hB h1 (.ok rootPath2) ∧
-    pathEq curPath (expectedFullPath rootPath exp) = true ∧
-    pathEq rootPath rootPath2 = true
-
-theorem checkCurrent_inv {env : Env} {cur root : Fd} {exp : List Bytes} {h0 h1 : Hist}
-    (hr : Runs (Opath.checkCurrent env cur root exp) h0 h1 (.ok ())) : CheckPassed env cur root exp h0 h1 := by
-  unfold Opath.checkCurrent at hr
-  simp only [M.bind_def] at hr
-  obtain ⟨hA, rootPath, r1, hr⟩ := mbind_ok hr
-  obtain ⟨hB, curPath, r2, hr⟩ := mbind_ok hr
-  by_cases hc : pathEq curPath (expectedFullPath rootPath exp) = true
-  · simp only [hc, Bool.not_true, Bool.false_eq_true, ↓reduceIte] at hr
-    obtain ⟨hC, rootPath2, r3, hr⟩ := mbind_ok hr
-    by_cases hc2 : pathEq rootPath rootPath2 = true
-    · simp only [hc2, Bool.not_true, Bool.false_eq_true, ↓reduceIte] at hr
-      obtain ⟨rfl, _⟩ := ret_inv hr
-      exact ⟨rootPath, curPath, rootPath2, hA, hB, r1, r2, r3, hc, hc2⟩
-    · simp only [hc2, Bool.not_false, ↓reduceIte] at hr
-      obtain ⟨_, he⟩ := ret_inv hr
-      cases he
-  · simp only [hc, Bool.not_false, ↓reduceIte] at hr
-    obtain ⟨_, he⟩ := ret_inv hr
-    cases he
-
-def OnlyCloses (t : Hist) : Prop := ∀ x ∈ t, ∃ fd, x.1 = Call.close fd
-
-theorem OnlyCloses.nil : OnlyCloses [] := fun _ hx => by cases hx
-theorem OnlyCloses.append {a b : Hist} (ha : OnlyCloses a) (hb : OnlyCloses b) : OnlyCloses (a ++ b) := by
-  intro x hx
-  rcases List.mem_append.mp hx with h | h
-  · exact ha x h
-  · exact hb x h
-
-theorem closeList_runs (l : List Fd) {h h' : Hist} {u : Unit} (hr : Runs (Sys.closeList l) h h' u) :
-    ∃ t, h' = h ++ t ∧ OnlyCloses t := by
-  induction l generalizing h with
-  | nil => obtain ⟨rfl, _⟩ := ret_inv hr; exact ⟨[], by simp, OnlyCloses.nil⟩
-  | cons fd rest ih =>
-    unfold Sys.closeList at hr
-    obtain ⟨hm, a, h1, h2⟩ := bind_inv hr
-    unfold Sys.close at h1
-    obtain ⟨r, h1⟩ := call_inv h1
-    obtain ⟨rfl, _⟩ := ret_inv h1
-    obtain ⟨t, rfl, ht⟩ := ih h2
-    refine ⟨(Call.close fd, r) :: t, by simp, ?_⟩
-    intro x hx
-    rcases List.mem_cons.mp hx with rfl | hx
-    · exact ⟨fd, rfl⟩
-    · exact ht x hx
-
-theorem closeAll_runs (l : List Fd) {h h' : Hist} {u : Unit} (hr : Runs (Sys.closeAll l) h h' u) :
-    ∃ t, h' = h ++ t ∧ OnlyCloses t := closeList_runs _ hr
-
-theorem releaseMany_runs (a b : List Fd) {h h' : Hist} {u : Unit} (hr : Runs (Opath.releaseMany a b) h h' u) :
-    ∃ t, h' = h ++ t ∧ OnlyCloses t := closeAll_runs _ hr
-
-theorem lift_releaseMany_runs (a b : List Fd) {h h' : Hist} {r : Except Err Unit}
-    (hr : Runs (M.lift (Opath.releaseMany a b)) h h' r) : ∃ t, h' = h ++ t ∧ OnlyCloses t := by
-  obtain ⟨u, h1, _⟩ := lift_inv hr
-  exact releaseMany_runs a b h1
-
-theorem failWith_not_ok {α : Type} (fds : List Fd) (e : Nat) {h h' : Hist} {a : α}
-    (hr : Runs (Sys.failWith fds e : M α) h h' (.ok a)) : False := by
-  unfold Sys.failWith at hr
-  induction fds generalizing h with
-  | nil => unfold Sys.failWith.go at hr; obtain ⟨_, he⟩ := ret_inv hr; cases he
-  | cons fd rest ih =>
-    unfold Sys.failWith.go at hr
-    obtain ⟨hm, ok, _, h2⟩ := bind_inv hr
-    cases ok with
-    | true => exact ih h2
-    | false => obtain ⟨_, he⟩ := ret_inv h2; cases he
-
-theorem openat_ok_inv {d : Fd} {n : Bytes} {fl m : Nat} {h h' : Hist} {fd : Fd}
-    (hr : Runs (Sys.openat d n fl m) h h' (.ok fd)) :
-    h' = h ++ [(Call.openat d n (fl ||| O_NOFOLLOW ||| O_CLOEXEC ||| O_NOCTTY) m, Resp.fd fd)] := by
-  unfold Sys.openat Sys.openatFollow at hr
-  simp only [M.bind_def] at hr
-  obtain ⟨hm, _, h1, hr2⟩ := mbind_ok hr
-  have h1' : Runs (M.ofExcept (Sys.hotfix d)) h hm (.ok ()) := h1
-  obtain ⟨hhm, _⟩ := ofExcept_inv h1'
-  obtain ⟨hm2, x, h2, hr3⟩ := mbind_ok hr2
-  obtain ⟨r, hh2, hx⟩ := call_ok_inv h2
-  cases hx
-  rw [hh2, hhm] at hr3
-  cases x with
-  | fd k => obtain ⟨hh, he⟩ := ret_inv hr3; cases he; exact hh
-  | err e => exact (failWith_not_ok _ _ hr3).elim
-  | _ => obtain ⟨_, he⟩ := ret_inv hr3; cases he
-
-/-- how a successful complete lookup ends -/
-def WalkFinal (env : Env) (root : Fd) (h h' : Hist) (fd : Fd) : Prop :=
-  ∃ exp h0 h1 tail, (∀ c ∈ exp, GoodComp c) ∧ h <+: h0 ∧ h' = h1 ++ tail ∧
-    ((CheckPassed env fd root exp h0 h1 ∧ OnlyCloses tail) ∨
-     (CheckPassed env root root exp h0 h1 ∧
-       ∃ t2, tail = (Call.openat root Path.dot (O_PATH ||| O_NOFOLLOW ||| O_NOFOLLOW ||| O_CLOEXEC ||| O_NOCTTY) 0, Resp.fd fd) :: t2 ∧
-         OnlyCloses t2))
-
-theorem WalkFinal.mono {env : Env} {root : Fd} {h hm h' : Hist} {fd : Fd} (hp : h <+: hm)
-    (hf : WalkFinal env root hm h' fd) : WalkFinal env root h h' fd := by
-  obtain ⟨exp, h0, h1, tail, a, b, c, d⟩ := hf
-  exact ⟨exp, h0, h1, tail, a, hp.trans b, c, d⟩
-
-theorem good_part {part0 : Bytes} (hs : single part0) (h1 : part0 ≠ []) (h2 : part0 ≠ Path.dot)
-    (h3 : part0 ≠ Path.dotdot) : GoodComp part0 := ⟨h1, hs, h2, h3⟩
-
-theorem good_dropLast {l : List Bytes} (h : ∀ c ∈ l, GoodComp c) : ∀ c ∈ l.dropLast, GoodComp c :=
-  fun c hc => h c ((List.dropLast_sublist l).subset hc)
-
-theorem walk_complete_checked (env : Env) (cfg : Opath.WalkCfg) (st : Opath.WalkSt)
-    (hexp : ∀ c ∈ st.expected, GoodComp c) (hrem : ∀ c ∈ st.rem, single c)
-    {h h' : Hist} {fd : Fd} {s : SStack}
-    (hr : Runs (Opath.walk env cfg st) h h' (.ok (.complete fd, s))) : WalkFinal env cfg.root h h' fd := by
-  fun_induction Opath.walk env cfg st generalizing h with
-  | case1 st hrem' =>
-    obtain ⟨hA, _, r1, hr2⟩ := mbind_ok hr
-    have hc := checkCurrent_inv (onErr_ok r1)
-    obtain ⟨hB, res, r2, hr3⟩ := mbind_ok hr2
-    obtain ⟨hC, _, r3, hr4⟩ := mbind_ok hr3
-    obtain ⟨t, ht, htc⟩ := lift_releaseMany_runs _ _ r3
-    obtain ⟨hh, he⟩ := ret_inv hr4
-    cases he
-    by_cases hcr : st.cur = cfg.root
-    · simp only [hcr, ↓reduceIte] at r2
-      have ho := openat_ok_inv (onErr_ok r2)
-      rw [hcr] at hc
-      refine ⟨st.expected, h, hA, (_ :: t), hexp, List.prefix_refl _, ?_, Or.inr ⟨hc, t, rfl, htc⟩⟩
-      rw [hh, ht, ho]; simp
-    · simp only [hcr, ↓reduceIte] at r2
-      obtain ⟨hh2, he⟩ := ret_inv r2
-      cases he
-      refine ⟨st.expected, h, hA, t, hexp, List.prefix_refl _, ?_, Or.inl ⟨hc, htc⟩⟩
-      rw [hh, ht, hh2]
-  | case2 st part0 rest hrem' hcond e he =>
-    obtain ⟨_, _, _, hr2⟩ := mbind_ok hr
-    obtain ⟨_, hx⟩ := ret_inv hr2
-    cases hx
-  | case3 st part0 rest hrem' hcond stack' hstk ih =>
-    obtain ⟨hm, _, r1, hr2⟩ := mbind_ok hr
-    have hp := Runs.isPrefix r1
-    rw [hrem'] at hrem
-    exact (ih hexp (fun c hc => hrem c (List.mem_cons_of_mem _ hc)) hr2).mono hp
-  | case4 st part0 rest hrem' remaining hdd part expected' ih1 =>
-    rename_i ih2
-    simp only [] at ih1 ih2
-    rw [hrem'] at hrem
-    have hs0 : single part0 := hrem _ List.mem_cons_self
-    have hrest : ∀ c ∈ rest, single c := fun c hc => hrem c (List.mem_cons_of_mem _ hc)
-    have hexp' : ∀ c ∈ expected', GoodComp c := by
-      intro c hc
-      by_cases h0 : part0 = []
-      · have : expected' = st.expected := by simp [expected', part, h0]
-        rw [this] at hc; exact hexp c hc
-      · by_cases h1 : part0 = dot
-        · have : expected' = st.expected := by
-            have e2 : dot ≠ [] := by decide
-            simp [expected', part, h1, e2]
-          rw [this] at hc; exact hexp c hc
-        · by_cases h2 : part0 = dotdot
-          · have : expected' = st.expected.dropLast := by
-              have e1 : dotdot ≠ dot := by decide
-              have e2 : dotdot ≠ [] := by decide
-              simp [expected', part, h2, e1, e2]
-            rw [this] at hc; exact good_dropLast hexp c hc
-          · have : expected' = st.expected ++ [part0] := by simp [expected', part, h0, h1, h2]
-            rw [this] at hc
-            rcases List.mem_append.mp hc with h3 | h3
-            · exact hexp c h3
-            · simp only [List.mem_singleton] at h3
-              subst h3
-              exact good_part hs0 h0 h1 h2
-    obtain ⟨hm, r, r1, hr2⟩ := mbind_ok hr
-    have hp1 := Runs.isPrefix r1
-    cases r with
-    | error e =>
-      unfold Opath.exitPartial at hr2
-      obtain ⟨_, _, _, hr3⟩ := mbind_ok hr2
-      obtain ⟨_, he⟩ := ret_inv hr3
-      cases he
-    | ok next =>
-      simp only [] at hr2
-      obtain ⟨hm2, _, r2, hr3⟩ := mbind_ok hr2
-      have hp2 := Runs.isPrefix r2
-      obtain ⟨hm3, md, r3, hr4⟩ := mbind_ok hr3
-      have hp3 := Runs.isPrefix r3
-      have hp123 := hp1.trans (hp2.trans hp3)
-      by_cases hsy : md.isSymlink = true
-      · simp only [hsy, Bool.not_true, Bool.false_eq_true, ↓reduceIte] at hr4
-        by_cases htr : rest = [] ∧ cfg.nofollow = true
-        · simp only [htr, and_self, ↓reduceIte] at hr4
-          obtain ⟨hm4, _, r4, hr5⟩ := mbind_ok hr4
-          have hp4 := Runs.isPrefix r4
-          obtain ⟨hm5, _, r5, hr6⟩ := mbind_ok hr5
-          have hc := checkCurrent_inv (onErr_ok r5)
-          obtain ⟨hm6, _, r6, hr7⟩ := mbind_ok hr6
-          obtain ⟨t, ht, htc⟩ := lift_releaseMany_runs _ _ r6
-          obtain ⟨hh, he⟩ := ret_inv hr7
-          cases he
-          exact ⟨expected', hm4, hm5, t, hexp', hp123.trans hp4, by rw [hh, ht], Or.inl ⟨hc, htc⟩⟩
-        · simp only [htr, ↓reduceIte] at hr4
-          by_cases hns : hasAll cfg.rflags RESOLVE_NO_SYMLINKS = true
-          · simp only [hns, ↓reduceIte] at hr4
-            unfold Opath.exitPartial at hr4
-            obtain ⟨_, _, _, hr5⟩ := mbind_ok hr4
-            obtain ⟨_, he⟩ := ret_inv hr5
-            cases he
-          · simp only [hns, ↓reduceIte] at hr4
-            obtain ⟨hm4, _, r4, hr5⟩ := mbind_ok hr4
-            have hp4 := Runs.isPrefix r4
-            by_cases hlim : st.links + 1 ≥ MAX_SYMLINK_TRAVERSALS
-            · simp only [hlim, ↓reduceDIte] at hr5
-              unfold Opath.exitPartial at hr5
-              obtain ⟨_, _, _, hr6⟩ := mbind_ok hr5
-              obtain ⟨_, he⟩ := ret_inv hr6
-              cases he
-            · simp only [hlim, ↓reduceDIte] at hr5
-              obtain ⟨hm5, target, r5, hr6⟩ := mbind_ok hr5
-              have hp5 := Runs.isPrefix r5
-              obtain ⟨hm6, magic, r6, hr7⟩ := mbind_ok hr6
-              have hp6 := Runs.isPrefix r6
-              cases magic with
-              | true =>
-                simp only [↓reduceIte] at hr7
-                obtain ⟨_, _, _, hr8⟩ := mbind_ok hr7
-                obtain ⟨_, he⟩ := ret_inv hr8
-                cases he
-              | false =>
-                simp only [Bool.false_eq_true, ↓reduceIte] at hr7
-                split at hr7
-                · obtain ⟨_, _, _, hr8⟩ := mbind_ok hr7
-                  obtain ⟨_, he⟩ := ret_inv hr8
-                  cases he
-                · rename_i stack' _
-                  obtain ⟨hm7, _, r7, hr8⟩ := mbind_ok hr7
-                  have hp7 := Runs.isPrefix r7
-                  simp only [dite_eq_ite] at ih2
-                  refine (ih2 hlim target stack' ?_ ?_ hr8).mono
-                    (hp123.trans (hp4.trans (hp5.trans (hp6.trans hp7))))
-                  · intro c hc
-                    split at hc
-                    · cases hc
-                    · exact good_dropLast hexp' c hc
-                  · intro c hc
-                    rcases List.mem_append.mp hc with h1 | h1
-                    · exact rawComponents_single target c h1
-                    · exact hrest c h1
-      · simp only [hsy, Bool.not_false, ↓reduceIte] at hr4
-        split at hr4
-        · obtain ⟨_, _, _, hr5⟩ := mbind_ok hr4
-          obtain ⟨_, he⟩ := ret_inv hr5
-          cases he
-        · rename_i stack' _
-          obtain ⟨hm4, _, r4, hr5⟩ := mbind_ok hr4
-          have hp4 := Runs.isPrefix r4
-          exact (ih1 next stack' hexp' hrest hr5).mono (hp123.trans hp4)
-
-theorem readlinkat_ok_inv {d : Fd} {h h' : Hist} {b : Bytes}
-    (hr : Runs (Sys.readlinkat d []) h h' (.ok b)) :
-    h' = h ++ [(Call.readlinkat d [] READLINK_BUF, Resp.bytes b)] := by
-  unfold Sys.readlinkat at hr
-  simp only [M.bind_def] at hr
-  obtain ⟨hm, _, h1, hr2⟩ := mbind_ok hr
-  have h1' : Runs (M.ofExcept (Sys.hotfix d)) h hm (.ok ()) := h1
-  obtain ⟨hhm, _⟩ := ofExcept_inv h1'
-  obtain ⟨hm2, x, h2, hr3⟩ := mbind_ok hr2
-  obtain ⟨r, hh2, hx⟩ := call_ok_inv h2
-  cases hx
-  rw [hh2, hhm] at hr3
-  cases x with
-  | bytes k =>
-    simp only [] at hr3
-    split at hr3
-    · exact (failWith_not_ok _ _ hr3).elim
-    · obtain ⟨hh, he⟩ := ret_inv hr3; cases he; exact hh
-  | err e => exact (failWith_not_ok _ _ hr3).elim
-  | _ => obtain ⟨_, he⟩ := ret_inv hr3; cases he
-
-/-- the bytes `as_unsafe_path` returns are the kernel's answer to `readlinkat(link, "")` on the
-descriptor that libpathrs' own (verified, see C06) procfs lookup of `thread-self/fd/<fd>` returned -/
-theorem asUnsafePath_inv {env : Env} {fd : Fd} {h h' : Hist} {b : Bytes}
-    (hr : Runs (Procfs.asUnsafePath env fd) h h' (.ok b)) :
-    ∃ sub link hm r, Sys.procSubpath fd = .ok sub ∧
-      Runs (Procfs.openH env Procfs.retryFuel env.proc .threadSelf sub O_PATH) h hm (.ok link) ∧
-      h' = hm ++ [(Call.readlinkat link [] READLINK_BUF, Resp.bytes b), (Call.close link, r)] := by
-  unfold Procfs.asUnsafePath at hr
-  simp only [M.bind_def] at hr
-  obtain ⟨hm0, sub, h0, hr1⟩ := mbind_ok hr
-  have h0' : Runs (M.ofExcept (Sys.procSubpath fd)) h hm0 (.ok sub) := h0
-  obtain ⟨hh0, hsub⟩ := ofExcept_inv h0'
-  unfold Procfs.readlinkH at hr1
-  simp only [M.bind_def] at hr1
-  obtain ⟨hm, link, h1, hr2⟩ := mbind_ok hr1
-  obtain ⟨hm2, x, h2, hr3⟩ := mbind_ok hr2
-  obtain ⟨y, hy, hcase⟩ := try_inv h2
-  obtain ⟨hm3, _, h3, hr4⟩ := mbind_ok hr3
-  have h3' : Runs (M.lift (Sys.close link)) hm2 hm3 (.ok ()) := h3
-  obtain ⟨_, h3'', _⟩ := lift_inv h3'
-  unfold Sys.close at h3''
-  obtain ⟨r, h3c⟩ := call_inv h3''
-  obtain ⟨hh3, _⟩ := ret_inv h3c
-  obtain ⟨hh4, hx⟩ := ofExcept_inv hr4
-  subst hx
-  rcases hcase with ⟨a, rfl, hxa⟩ | ⟨e, rfl, hfe⟩
-  · cases hxa
-    have := readlinkat_ok_inv hy
-    refine ⟨sub, link, hm, r, hsub.symm, by rw [← hh0]; exact h1, ?_⟩
-    rw [hh4, hh3, this]; simp
-  · rcases hfe with ⟨_, hxe⟩ | ⟨_, hxe⟩ <;> cases hxe
-
-/-- the path `check_current` compares with: the root's components followed by exactly the
-expected components -/
-theorem components_expected (rp : Bytes) (habs : isAbsolute rp = true) (e : List Bytes)
-    (he : ∀ c ∈ e, GoodComp c) :
-    components (expectedFullPath rp e) = components rp ++ e.map Comp.normal := by
-  have hne : rp ≠ [] := by intro h; rw [h] at habs; cases habs
-  let es : List Bytes := if e = [] then [[]] else e
-  have hes_rel : ∀ c ∈ (([] : Bytes) :: es), isAbsolute c = false := by
-    intro c hc
-    rcases List.mem_cons.mp hc with rfl | h
-    · rfl
-    · simp only [es] at h
-      split at h
-      · simp at h; subst h; rfl
-      · exact proper_not_abs (he c h)
-  have hes_pieces : ((([] : Bytes) :: es).map pieces).flatten = e.map Comp.normal := by
-    simp only [List.map_cons, List.flatten_cons, pieces_nil, List.nil_append, es]
-    split
-    · rename_i h; subst h; simp [pieces_nil]
-    · exact flatten_pieces_proper e he
-  obtain ⟨hrel_pieces, hrel_ne, hrel_abs⟩ :=
-    pieces_foldl_push (([] : Bytes) :: es) hes_rel dot (by decide)
-  have hrel_rel : isAbsolute ((([] : Bytes) :: es).foldl push dot) = false := by
-    rw [hrel_abs]; decide
-  unfold expectedFullPath
-  rw [components_abs _ (push_abs _ _ habs hrel_rel), pieces_push _ _ hne hrel_rel, components_abs _ habs,
-    hrel_pieces, pieces_dot, List.nil_append, hes_pieces, List.cons_append]
-
-/-- **what a passed check means**: the kernel printed, for the checked descriptor, a path whose
-components are the root's components followed by normal (non-`..`) components: the object
-was below the root at that instant, and the root had not moved between the two reads of its path. -/
-theorem checked_below_root {env : Env} {cur root : Fd} {exp : List Bytes} {h0 h1 : Hist}
-    (hc : CheckPassed env cur root exp h0 h1) (hexp : ∀ c ∈ exp, GoodComp c) :
-    ∃ rootPath curPath rootPath2 hA hB,
-      Runs (Procfs.asUnsafePath env root) h0 hA (.ok rootPath) ∧
-      Runs (Procfs.asUnsafePath env cur) hA hB (.ok curPath) ∧
-      Runs (Procfs.asUnsafePath env root) hB h1 (.ok rootPath2) ∧
-      components rootPath = components rootPath2 ∧
-      (isAbsolute rootPath = true → components curPath = components rootPath ++ exp.map Comp.normal) := by
-  obtain ⟨rootPath, curPath, rootPath2, hA, hB, r1, r2, r3, e1, e2⟩ := hc
-  refine ⟨rootPath, curPath, rootPath2, hA, hB, r1, r2, r3, ?_, ?_⟩
-  · simpa [pathEq] using e2
-  · intro habs
-    have : components curPath = components (expectedFullPath rootPath exp) := by simpa [pathEq] using e1
-    rw [this, components_expected rootPath habs exp hexp]
-
-/-! ### the kernel backend: bounded retries -/
-
-def isO2 : Call → Bool
-  | .openat2 .. => true
-  | _ => false
-
-def NotO2 (c : Call) : Prop := isO2 c = false
-
-theorem notO2_diag : DiagOk NotO2 where
-  gettid := rfl
-  geteuid := rfl
-  probe := fun _ _ => rfl
-  readlinkAbs := fun _ _ => rfl
-  close := fun _ => rfl
-  dup := fun _ => rfl
-
-/-- bridge from the safety logic to runs -/
-theorem Safe.runs {α : Type} {D : Call → Prop} {p : Prog α} {Q : α → Prop} (hp : Safe D p Q) {h h' : Hist} {a : α}
-    (hr : Runs p h h' a) : ∃ t, h' = h ++ t ∧ ((∀ x ∈ t, x.2.sane) → ∀ x ∈ t, D x.1) := by
-  induction p generalizing h with
-  | ret b => obtain ⟨rfl, _⟩ := ret_inv hr; exact ⟨[], by simp, fun _ _ hx => by cases hx⟩
-  | call c k ih =>
-    obtain ⟨r, hk⟩ := call_inv hr
-    by_cases hs : r.sane
-    · obtain ⟨t, ht, hD⟩ := ih r (hp.2 r hs) hk
-      refine ⟨(c, r) :: t, by rw [ht]; simp, ?_⟩
-      intro hsane x hx
-      rcases List.mem_cons.mp hx with rfl | hx
-      · exact hp.1
-      · exact hD (fun y hy => hsane y (List.mem_cons_of_mem _ hy)) x hx
-    · have hpre := Runs.isPrefix hk
-      obtain ⟨t, ht⟩ := hpre
-      refine ⟨(c, r) :: t, by rw [← ht]; simp, ?_⟩
-      intro hsane
-      exact absurd (hsane (c, r) List.mem_cons_self) hs
-
-def countO2 (t : Hist) : Nat := t.countP fun x => isO2 x.1
-
-theorem countO2_zero {t : Hist} (h : ∀ x ∈ t, NotO2 x.1) : countO2 t = 0 := by
-  unfold countO2
-  rw [List.countP_eq_zero]
-  intro x hx
-  have := h x hx
-  unfold NotO2 at this
-  simp [this]
-
-/-- one `openat2` wrapper call issues exactly one `openat2` -/
-theorem openat2_count {d : Fd} {p : Bytes} {fl rs : Nat} {h h' : Hist} {r : Except Err Fd}
-    (hr : Runs (Sys.openat2 d p fl rs) h h' r) :
-    ∃ t, h' = h ++ t ∧ ((∀ x ∈ t, x.2.sane) → countO2 t ≤ 1) := by
-  unfold Sys.openat2 at hr
-  split at hr
-  · -- NUL in the path: no kernel call
-    simp only [M.bind_def] at hr
-    have hs : Safe NotO2 (M.bind' (liftM (Sys.hotfix d)) fun _ => (Sys.failWith [d] EINVAL : M Fd)) (fun _ => True) := by
-      apply Safe.mbind (Q' := fun _ => True)
-      · exact Safe.ofExcept trivial
-      · intro _ _; exact G.failWith_safe notO2_diag _ _ _ (fun _ => trivial)
-      · intro _ _; exact trivial
-    obtain ⟨t, ht, hD⟩ := Safe.runs hs hr
-    exact ⟨t, ht, fun hsane => by rw [countO2_zero (hD hsane)]; omega⟩
-  · simp only [M.bind_def] at hr
-    rcases mbind_inv hr with ⟨hm, _, h1, hr2⟩ | ⟨e, h1, _⟩
-    · have h1' : Runs (M.ofExcept (Sys.hotfix d)) h hm (.ok ()) := h1
-      obtain ⟨hhm, _⟩ := ofExcept_inv h1'
-      subst hhm
-      rcases mbind_inv hr2 with ⟨hm2, x, h2, hr3⟩ | ⟨e, h2, _⟩
-      · obtain ⟨r', hh2, hx⟩ := call_ok_inv h2
-        cases hx
-        have key : ∃ t, h' = hm2 ++ t ∧ ((∀ x ∈ t, x.2.sane) → ∀ x ∈ t, NotO2 x.1) := by
-          cases x with
-          | err e => exact Safe.runs (G.failWith_safe notO2_diag [d] e (fun _ => True) (fun _ => trivial)) hr3
-          | _ => obtain ⟨hh, _⟩ := ret_inv hr3; exact ⟨[], by simp [hh], fun _ _ hx => by cases hx⟩
-        obtain ⟨t, ht, hD⟩ := key
-        refine ⟨(Call.openat2 d (toCString p) (fl ||| O_CLOEXEC) 0 rs OPEN_HOW_SIZE, x) :: t, by rw [ht, hh2]; simp, ?_⟩
-        intro hsane
-        have := countO2_zero (hD (fun y hy => hsane y (List.mem_cons_of_mem _ hy)))
-        unfold countO2 at this ⊢
-        rw [List.countP_cons, this]
-        split <;> omega
-      · obtain ⟨r', hh2, hx⟩ := call_ok_inv h2
-        cases hx
-    · have h1' : Runs (M.ofExcept (Sys.hotfix d)) h h' (.error e) := h1
-      obtain ⟨hhm, _⟩ := ofExcept_inv h1'
-      exact ⟨[], by simp [hhm], fun _ => by simp [countO2]⟩
-
-theorem openat2_ok_last {d : Fd} {p : Bytes} {fl rs : Nat} {h h' : Hist} {fd : Fd}
-    (hr : Runs (Sys.openat2 d p fl rs) h h' (.ok fd)) :
-    h' = h ++ [(Call.openat2 d (toCString p) (fl ||| O_CLOEXEC) 0 rs OPEN_HOW_SIZE, Resp.fd fd)] := by
-  unfold Sys.openat2 at hr
-  split at hr
-  · simp only [M.bind_def] at hr
-    obtain ⟨_, _, _, hr2⟩ := mbind_ok hr
-    exact (failWith_not_ok _ _ hr2).elim
-  · simp only [M.bind_def] at hr
-    obtain ⟨hm, _, h1, hr2⟩ := mbind_ok hr
-    have h1' : Runs (M.ofExcept (Sys.hotfix d)) h hm (.ok ()) := h1
-    obtain ⟨hhm, _⟩ := ofExcept_inv h1'
-    obtain ⟨hm2, x, h2, hr3⟩ := mbind_ok hr2
-    obtain ⟨r, hh2, hx⟩ := call_ok_inv h2
-    cases hx
-    rw [hh2, hhm] at hr3
-    cases x with
-    | fd k => obtain ⟨hh, he⟩ := ret_inv hr3; cases he; exact hh
-    | err e => exact (failWith_not_ok _ _ hr3).elim
-    | _ => obtain ⟨_, he⟩ := ret_inv hr3; cases he
-
-/-- the retry loop: at most `n` `openat2` calls; a success is the answer of the last one;
-`EAGAIN` is never what the caller sees -/
-theorem resolveLoop_runs (root : Fd) (path : Bytes) (fl rs : Nat) (n : Nat) {h h' : Hist} {r : Except Err Fd}
-    (hr : Runs (Openat2.resolveLoop root path fl rs n) h h' r) :
-    (∃ t, h' = h ++ t ∧ ((∀ x ∈ t, x.2.sane) → countO2 t ≤ n)) ∧
-    (∀ fd, r = .ok fd → ∃ pre, h' = pre ++
-        [(Call.openat2 root (toCString path) (fl ||| O_CLOEXEC) 0 rs OPEN_HOW_SIZE, Resp.fd fd)]) ∧
-    r ≠ .error (.os EAGAIN) := by
-  induction n generalizing h with
-  | zero =>
-    unfold Openat2.resolveLoop at hr
-    obtain ⟨rfl, rfl⟩ := ret_inv hr
-    exact ⟨⟨[], by simp, fun _ => by simp [countO2]⟩, (fun fd he => by cases he), (fun he => by cases he)⟩
-  | succ n ih =>
-    unfold Openat2.resolveLoop at hr
-    simp only [M.bind_def] at hr
-    rcases mbind_inv hr with ⟨hm, x, h1, hr2⟩ | ⟨e, h1, he⟩
-    · obtain ⟨y, hy, hcase⟩ := try_inv h1
-      obtain ⟨t1, ht1, hc1⟩ := openat2_count hy
-      rcases hcase with ⟨a, rfl, hxa⟩ | ⟨e, rfl, hfe⟩
-      · cases hxa
-        obtain ⟨rfl, rfl⟩ := ret_inv hr2
-        refine ⟨⟨t1, ht1, fun hs => Nat.le_trans (hc1 hs) (by omega)⟩, ?_, (fun he => by cases he)⟩
-        intro fd he; cases he
-        exact ⟨h, openat2_ok_last hy⟩
-      · rcases hfe with ⟨_, hxe⟩ | ⟨hnf, hxe⟩
-        · cases hxe
-        · cases hxe
-          cases e with
-          | os e =>
-            simp only [] at hr2
-            by_cases h1 : e = ENOSYS
-            · simp only [h1, ↓reduceIte] at hr2
-              obtain ⟨rfl, rfl⟩ := ret_inv hr2
-              exact ⟨⟨t1, ht1, fun hs => Nat.le_trans (hc1 hs) (by omega)⟩, (fun fd he => by cases he),
-                (fun he => by cases he)⟩
-            · by_cases h2 : e = EAGAIN
-              · have h1' : EAGAIN ≠ ENOSYS := by decide
-                simp only [h2, h1', ↓reduceIte] at hr2
-                obtain ⟨⟨t2, ht2, hc2⟩, hlast, hne⟩ := ih hr2
-                refine ⟨⟨t1 ++ t2, by rw [ht2, ht1]; simp, ?_⟩, hlast, hne⟩
-                intro hs
-                have a1 := hc1 (fun x hx => hs x (List.mem_append_left _ hx))
-                have a2 := hc2 (fun x hx => hs x (List.mem_append_right _ hx))
-                unfold countO2 at a1 a2 ⊢
-                rw [List.countP_append]; omega
-              · simp only [h1, h2, ↓reduceIte] at hr2
-                obtain ⟨rfl, rfl⟩ := ret_inv hr2
-                refine ⟨⟨t1, ht1, fun hs => Nat.le_trans (hc1 hs) (by omega)⟩, (fun fd he => by cases he), ?_⟩
-                intro he; cases he; exact h2 rfl
-          | _ =>
-            obtain ⟨rfl, rfl⟩ := ret_inv hr2
-            exact ⟨⟨t1, ht1, fun hs => Nat.le_trans (hc1 hs) (by omega)⟩, (fun fd he => by cases he),
-              (fun he => by cases he)⟩
-    · subst he
-      obtain ⟨y, hy, hcase⟩ := try_inv h1
-      obtain ⟨t1, ht1, hc1⟩ := openat2_count hy
-      rcases hcase with ⟨a, rfl, hxa⟩ | ⟨e', rfl, hfe⟩
-      · cases hxa
-      · rcases hfe with ⟨hf, hxe⟩ | ⟨_, hxe⟩
-        · cases hxe
-          refine ⟨⟨t1, ht1, fun hs => Nat.le_trans (hc1 hs) (by omega)⟩, (fun fd he => by cases he), ?_⟩
-          intro he; cases he; simp [Err.isFatal] at hf
-        · cases hxe
-
-/-! ## The property theorems -/
-
-/-- **Emulated backend: every successful lookup is a checked descriptor.**  For every
-environment (every interleaving of attacker mutations shows up as some sequence of answers):
-if `opath::resolve` returns `fd`, then the last thing that happened before the final
-bookkeeping closes is a passed `check_current` on `fd` (or on the walk's root duplicate,
-followed by the `O_PATH|O_NOFOLLOW` open of `"."` beneath it that produced `fd`). -/
+/-- **Emulated backend: every successful lookup is a checked descriptor.**  For every environment: if `opath::resolve`
+returns `fd`, the last thing that happened before the final bookkeeping closes is a passed `check_current` on `fd` (or
+on the walk's root duplicate, followed by the `O_PATH|O_NOFOLLOW` open of `"."` beneath it that produced `fd`). -/
 theorem C02_emulated_checked (env : Env) (root : Fd) (path : Bytes) (rflags : Nat) (nofollow : Bool)
     {h h' : Hist} {fd : Fd}
     (hr : Runs (Opath.resolve env root path rflags nofollow) h h' (.ok fd)) :
-    ∃ rd, (h ++ [(Call.dup root 3, Resp.fd rd)]) <+: h' ∧ WalkFinal env rd (h ++ [(Call.dup root 3, Resp.fd rd)]) h' fd := by
-  unfold Opath.resolve at hr
-  simp only [M.bind_def] at hr
-  obtain ⟨hm, ⟨res, stk⟩, h1, hr2⟩ := mbind_ok hr
-  unfold Opath.doResolve at h1
-  simp only [M.bind_def] at h1
-  obtain ⟨hd, rd, hdup, h2⟩ := mbind_ok h1
-  have hdup' : hd = h ++ [(Call.dup root 3, Resp.fd rd)] := by
-    unfold Sys.dup at hdup
-    simp only [M.bind_def] at hdup
-    obtain ⟨hx, x, hc, hk⟩ := mbind_ok hdup
-    obtain ⟨r, hh, hxr⟩ := call_ok_inv hc
-    cases hxr
-    cases x with
-    | fd k => obtain ⟨hh2, he⟩ := ret_inv hk; cases he; rw [hh2, hh]
-    | _ => obtain ⟨_, he⟩ := ret_inv hk; cases he
-  subst hdup'
-  cases res with
-  | part hh rem e =>
-    simp only [] at hr2
-    obtain ⟨_, _, _, hr3⟩ := mbind_ok hr2
-    obtain ⟨_, he⟩ := ret_inv hr3
-    cases he
-  | complete c =>
-    simp only [] at hr2
-    obtain ⟨hh, he⟩ := ret_inv hr2
-    cases he
-    subst hh
-    by_cases hp : path = []
-    · simp only [hp, ↓reduceIte] at h2
-      obtain ⟨_, he⟩ := ret_inv h2
-      cases he
-    · simp only [hp, ↓reduceIte] at h2
-      refine ⟨rd, Runs.isPrefix h2, ?_⟩
-      exact walk_complete_checked env _ _ (fun c hc => by cases hc) (rawComponents_single path) h2
+    ∃ rd, (h ++ [(Call.dup root 3, Resp.fd rd)]) <+: h' ∧ WalkFinal env rd (h ++ [(Call.dup root 3, Resp.fd rd)]) h' fd :=
+  emulated_checked env root path rflags nofollow hr
 
-/-- **Kernel backend: a result is the kernel's own confined answer.**  If `openat2::resolve`
-returns `fd`, the last call of the run is `openat2(root, path, …, RESOLVE_IN_ROOT|
-RESOLVE_NO_MAGICLINKS|rflags)` answered with `fd`; at most 16 `openat2` calls were made;
-`EAGAIN` never reaches the caller (after 16 tries the error is `SafetyViolation`). -/
+/-- **Kernel backend: a result is the kernel's own confined answer.**  If `openat2::resolve` returns `fd`, the last call
+of the run is `openat2(root, path, …, RESOLVE_IN_ROOT|RESOLVE_NO_MAGICLINKS|rflags)` answered with `fd`; at most 16
+`openat2` calls were made; `EAGAIN` never reaches the caller (after 16 tries the error is `SafetyViolation`). -/
 theorem C02_kernel_confined (env : Env) (root : Fd) (path : Bytes) (rflags : Nat) (nofollow : Bool)
     {h h' : Hist} {r : Except Err Fd}
     (hr : Runs (Openat2.resolve env root path rflags nofollow) h h' r) :
@@ -622,45 +36,33 @@ theorem C02_kernel_confined (env : Env) (root : Fd) (path : Bytes) (rflags : Nat
     (∀ fd, r = .ok fd → ∃ pre fl, h' = pre ++
         [(Call.openat2 root (toCString path) fl 0 (RESOLVE_IN_ROOT ||| RESOLVE_NO_MAGICLINKS ||| rflags) OPEN_HOW_SIZE,
           Resp.fd fd)]) ∧
-    r ≠ .error (.os EAGAIN) := by
-  unfold Openat2.resolve at hr
-  split at hr
-  · obtain ⟨rfl, rfl⟩ := ret_inv hr
-    exact ⟨⟨[], by simp, fun _ => by simp [countO2]⟩, (fun fd he => by cases he), (fun he => by cases he)⟩
-  · obtain ⟨a, b, c⟩ := resolveLoop_runs _ _ _ _ _ hr
-    refine ⟨a, ?_, c⟩
-    intro fd he
-    obtain ⟨pre, hp⟩ := b fd he
-    exact ⟨pre, _, hp⟩
+    r ≠ .error (.os EAGAIN) :=
+  kernel_confined env root path rflags nofollow hr
 
 /-- the limit is real: with no tries left the loop is `SafetyViolation` -/
 theorem C02_eagain_exhausted (root : Fd) (path : Bytes) (fl rs : Nat) :
-    Openat2.resolveLoop root path fl rs 0 = throw .safetyViolation := rfl
+    Openat2.resolveLoop root path fl rs 0 = throw .safetyViolation :=
+  eagain_exhausted root path fl rs
 
+open Attack in
+/-- **The emulated lookup against an attacker who rearranges the tree between any two system calls.**  `ws i` is the
+state of the machine when the `i`-th system call of the lookup is made; nothing relates the trees of different moments
+(the attacker renames, exchanges, replaces, removes, moves things out of and into the root as it likes, as often as it
+likes), and none of them needs to be well-formed.  `Attacker` asks only that the root directory itself stays where it is
+(`dpath root = some []` at every moment — the attacker works *inside* the tree), that it is a tree object, and one fact
+about the numbering of the model's procfs objects (with a counterexample in `Proofs/Attack.lean` showing it is needed).
+If the lookup returns `fd`, then at some moment `i` of the call `(ws i).dpath fd = some p`: the kernel's `d_path` placed
+the object below the root — it was inside the root's tree at that moment.  An object that was outside the tree at every
+moment of the call is never returned. -/
+theorem C02_under_attack (ws : Nat → World) (root : Fd) (rc : List Bytes) (m : Nat)
+    (ha : Attacker ws root rc m) (path : Bytes) (rflags : Nat) (nofollow : Bool) (i0 : Nat) (fd : Fd)
+    (h : (runSeq ws i0 (Opath.resolve (aenv m) root path rflags nofollow)).1 = .ok fd) :
+    ∃ i p, i0 ≤ i ∧ i < (runSeq ws i0 (Opath.resolve (aenv m) root path rflags nofollow)).2 ∧
+      (ws i).dpath fd = some p :=
+  emulated_resolve_under_attack ws root rc m ha path rflags nofollow i0 fd h
 
-/-! ## Non-vacuity: the hypotheses are met by real runs -/
+/-! ## Non-vacuity -/
 
-theorem trace_eq_run (w : World) {α : Type} (p : Prog α) (h : Hist) :
-    (p.trace (fun _ c => w.answer c) h).2 = Prog.run w p := by
-  induction p generalizing h with
-  | ret a => rfl
-  | call c k ih => exact ih _ _
-
-/-- on the example world of C01 the no-follow lookup of `a` succeeds, so `C02_emulated_checked`
-applies to an actual run -/
-example : ∃ h' fd, Runs (Opath.resolve (KRun.kenv exWorld) exWorld.root b!"a" 0 true) [] h' (.ok fd) := by
-  have hr := Runs.of_trace (Opath.resolve (KRun.kenv exWorld) exWorld.root b!"a" 0 true)
-    (fun _ c => exWorld.answer c) []
-  have hv : Prog.run exWorld (Opath.resolve (KRun.kenv exWorld) exWorld.root b!"a" 0 true) = .ok 6 := by
-    rw [KSpec.run_opath_resolve exWorld_wf]
-    unfold World.resolveInRoot
-    rw [if_neg (by decide)]
-    have hc : Path.rawComponents b!"a" = [b!"a"] := by decide
-    rw [hc]
-    show KSim.toOut (exWorld.kresolve _ 4 [b!"a"] 0) = _
-    rw [KSim.k_name _ _ _ _ _ (by rfl) (by decide) (by decide) (by decide)]
-    rfl
-  have e : (Prog.trace (fun _ c => exWorld.answer c)
-      (Opath.resolve (KRun.kenv exWorld) exWorld.root b!"a" 0 true) []).2 = .ok 6 :=
-    (trace_eq_run exWorld _ []).trans hv
-  exact ⟨_, 6, e ▸ hr⟩
+open Attack in
+/-- the attacker model is inhabited (the attacker who does nothing), and a lookup succeeds there -/
+example : (runSeq (fun _ => exWorld) 0 (Opath.resolve (aenv exWorld.procMnt) exWorld.root b!"a" 0 true)).1 = .ok 6 := ex_run
